@@ -113,7 +113,8 @@ def _chunk(items):
                 exp.append({'d': e['d'], 'n': e['n'], 'id': e['id'], 'cls': list(e['cls']), 'attrs': attrs, 'text': ' '.join(e['text']).split(), 'sc': bool(e['sc']),
                             'tlines': [l.strip() for l in e['text'] if l.strip()]})
             flags = {'multiline_text_with_children': bool(v['mlkids']), 'leaf_inner_break': bool(row.get('leaf') or v['mltext']),
-                     'field_text_with_children': bool(v['fieldkids'])}
+                     'field_text_with_children': bool(v['fieldkids']),
+                     'comment_before_ends_in_line_break': bool(row['opts'].get('comment.before', '').endswith('\n'))}
             variants = [(v['abbr'], tid0 * 16 + ri)]
             if '>' in v['abbr'] and '^' not in v['abbr'] and '(' not in v['abbr'] and '{' not in v['abbr'].rsplit('>', 1)[0] and ri < 8 \
                     and not any(it[:1] in '.#[' for it in v['abbr'].rsplit('>', 1)[1].split('+')):      # an implicit name would be taken from the text node
